@@ -30,9 +30,8 @@ pub fn try_get_amount_delta_a(
     let sqrt_price_diff = sqrt_price_upper - sqrt_price_lower;
     let numerator: U256 = <U256>::from(liquidity)
         .checked_mul(sqrt_price_diff.into())
-        .ok_or(ARITHMETIC_OVERFLOW)?
-        .checked_shl(64)
-        .ok_or(ARITHMETIC_OVERFLOW)?;
+        .ok_or(ARITHMETIC_OVERFLOW)
+        .and_then(checked_shl_64)?;
 
     let denominator: U256 = <U256>::from(sqrt_price_lower)
         .checked_mul(sqrt_price_upper.into())
@@ -111,9 +110,8 @@ pub fn try_get_next_sqrt_price_from_a(
         .ok_or(ARITHMETIC_OVERFLOW)?;
     let numerator = <U256>::from(current_liquidity)
         .checked_mul(current_sqrt_price.into())
-        .ok_or(ARITHMETIC_OVERFLOW)?
-        .checked_shl(64)
-        .ok_or(ARITHMETIC_OVERFLOW)?;
+        .ok_or(ARITHMETIC_OVERFLOW)
+        .and_then(checked_shl_64)?;
 
     let current_liquidity_shifted = <U256>::from(current_liquidity)
         .checked_shl(64)
@@ -342,6 +340,15 @@ pub fn try_reverse_apply_swap_fee(amount: u64, fee_rate: u32) -> Result<u64, Cor
 }
 
 // Private functions
+
+/// Shift left by 64 bits, failing if any set bit would be shifted out.
+/// `U256::checked_shl` only checks the shift amount and silently drops the high bits.
+pub(crate) fn checked_shl_64(value: U256) -> Result<U256, CoreError> {
+    if value.leading_zeros() < 64 {
+        return Err(ARITHMETIC_OVERFLOW);
+    }
+    Ok(value << 64)
+}
 
 fn try_mul_div(
     amount: u64,
